@@ -196,6 +196,10 @@ def make_universe(seed, module, void_static=False):
             add({'kind': 'static', 'cls': k, 'name': 'Create',
                  'params': [('int', 'a', None)], 'ret': ('fresh', k, rng.choice(descendants(k)))})
         if rng.random() < 0.5:
+            # an overloaded static method (same arity, told apart by the argument class) and one with a trailing default
+            add({'kind': 'static', 'cls': k, 'name': 'Code', 'params': [('string', 's', None)], 'ret': 'int'})
+            add({'kind': 'static', 'cls': k, 'name': 'Code', 'params': [('int', 'a', None), ('int', 'b', '4')], 'ret': 'int'})
+        if rng.random() < 0.5:
             add({'kind': 'static', 'cls': k, 'name': 'Count',
                  'params': [('int', 'a', None), ('int', 'b', None)], 'ret': 'int'})
         slot = 0
